@@ -187,6 +187,7 @@ type Scenario struct {
 	Src     string        `json:"src,omitempty"`
 	Note    string        `json:"note,omitempty"`
 	Iso     *IsoCase      `json:"iso,omitempty"`
+	Readd   *ReaddCase    `json:"readd,omitempty"`
 	Threads int           `json:"threads,omitempty"`
 }
 
